@@ -203,8 +203,11 @@ def hij_all(name):
 
 class Def:
     def __init__(self, name, kind, sized, fields=None, variants=None, tag=None, default=False, portable=False,
-                 vis="pub", style="named", discrs=None, vattrs=None, extra=""):
+                 vis="pub", style="named", discrs=None, vattrs=None, extra="", generic=None):
         self.name = name
+        # generic = (rust name of the generic definition, its parameter declaration, the instance's arguments, {concrete field type: generic spelling}):
+        # the Def then describes ONE instantiation (the oracle needs concrete fields); the generic source is emitted once per rust name.
+        self.generic = generic
         self.kind = kind  # struct | enum
         self.sized = sized
         self.fields = fields  # [(name|None, T)]
@@ -226,6 +229,10 @@ class Def:
             assert len(dv) == 1 and not dv[0][2], "macro limitation: #[default] must be a unit variant (%s)" % name
         self.t = self._type()
         self.t.defn = self
+        if generic:
+            self.t.rust = "%s<%s>" % (generic[0], generic[2])
+            self.t.fname = self.t.rust
+            self.t.emplacers = []
 
     def tag_t(self):
         return {"u8": U8, "u16": U16, "u32": U32}[self.tag or "u8"]
@@ -332,6 +339,12 @@ class Def:
 
     # ---- rust source ---------------------------------------------------------------------
     def rust(self):
+        if self.generic:
+            gname, gdecl, _gargs, gmap = self.generic
+            sp = lambda t: gmap.get(t.rust, t.rust)
+        else:
+            gname, gdecl = self.name, ""
+            sp = lambda t: t.rust
         attrs = []
         if not self.sized:
             attrs.append("sized = false")
@@ -345,12 +358,12 @@ class Def:
         vis = (self.vis + " ") if self.vis else ""
         if self.kind == "struct":
             if self.style == "named":
-                body = " {\n" + "".join("    %s%s: %s,\n" % (vis, fn, t.rust) for fn, t in self.fields) + "}"
+                body = " {\n" + "".join("    %s%s: %s,\n" % (vis, fn, sp(t)) for fn, t in self.fields) + "}"
             elif self.style == "tuple":
-                body = "(" + ", ".join("%s%s" % (vis, t.rust) for _, t in self.fields) + ");"
+                body = "(" + ", ".join("%s%s" % (vis, sp(t)) for _, t in self.fields) + ");"
             else:
                 body = ";"
-            return "%s\n%sstruct %s%s\n%s" % (a, vis, self.name, body, self.extra)
+            return "%s\n%sstruct %s%s%s\n%s" % (a, vis, gname, gdecl, body, self.extra)
         lines = []
         for i, (vn, st, fs, isdef) in enumerate(self.variants):
             pre = "    #[default]\n" if (isdef and self.default) else ""
@@ -362,13 +375,14 @@ class Def:
             if st == "unit" or not fs:
                 lines.append("%s    %s%s,\n" % (pre, vn, d))
             elif st == "tuple":
-                lines.append("%s    %s(%s)%s,\n" % (pre, vn, ", ".join(t.rust for _, t in fs), d))
+                lines.append("%s    %s(%s)%s,\n" % (pre, vn, ", ".join(sp(t) for _, t in fs), d))
             else:
-                lines.append("%s    %s { %s }%s,\n" % (pre, vn, ", ".join("%s: %s" % (fn, t.rust) for fn, t in fs), d))
-        return "%s\n%senum %s {\n%s}\n%s" % (a, vis, self.name, "".join(lines), self.extra)
+                lines.append("%s    %s { %s }%s,\n" % (pre, vn, ", ".join("%s: %s" % (fn, sp(t)) for fn, t in fs), d))
+        return "%s\n%senum %s%s {\n%s}\n%s" % (a, vis, gname, gdecl, "".join(lines), self.extra)
 
     def manifest(self):
-        m = {"name": self.name, "kind": self.kind, "sized": self.sized, "tag": self.tag if self.kind == "enum" else None,
+        m = {"name": self.name, "generic": (self.generic[0] if self.generic else None),
+             "kind": self.kind, "sized": self.sized, "tag": self.tag if self.kind == "enum" else None,
              "tag_eff": (self.tag or "u8") if self.kind == "enum" else None,
              "default": self.default, "portable": self.portable, "vis": self.vis, "c_like": self.c_like,
              "align": self.t.align, "size": self.t.size, "min_size": self.t.min_size,
@@ -513,6 +527,21 @@ def build(tier):
     h_ue = D("HUE", "enum", False, variants=[("A", "unit", [], True), ("B", "tuple", [(None, h_ec.t), (None, h_us.t)], False),
                                               ("C", "named", [("x", h_s.t)], False)], default=True, extra=hij_all("HUE"))
     h_outer = D("HOuter", "struct", False, fields=[("id", U32), ("inner", h_ue.t)], default=True, extra=hij_all("HOuter"))
+    # generic definitions (type and const parameters), each with two instantiations: the constants and rustc layouts of an instance
+    # must follow the C rule for the substituted field list (layout rules only; the generated bodies are polymorphic)
+    GB = "flatty::Flat + Default"
+    for inst, (tt, n_) in (("A", (U32, 3)), ("B", (U8, 5))):
+        gm = {tt.rust: "T", array(tt, n_).rust: "[T; N]", flatvec(tt, U16).rust: "flatty::FlatVec<T, u16>"}
+        D("GSz" + inst, "struct", True, fields=[("a", U8), ("b", array(tt, n_)), ("c", tt)],
+          generic=("GSz", "<T: %s, const N: usize>" % GB, "%s, %d" % (tt.rust, n_), gm))
+        D("GESz" + inst, "enum", True, variants=[("A", "unit", [], True), ("B", "tuple", [(None, tt), (None, U8)], False),
+                                                  ("C", "named", [("x", array(tt, n_))], False)],
+          generic=("GESz", "<T: %s, const N: usize>" % GB, "%s, %d" % (tt.rust, n_), gm))
+        D("GUS" + inst, "struct", False, fields=[("a", U8), ("b", array(tt, n_)), ("c", flatvec(tt, U16))],
+          generic=("GUS", "<T: %s, const N: usize>" % GB, "%s, %d" % (tt.rust, n_), gm))
+        D("GUE" + inst, "enum", False, variants=[("A", "unit", [], True), ("B", "tuple", [(None, U8), (None, tt)], False),
+                                                  ("C", "tuple", [(None, array(tt, n_)), (None, flatvec(tt, U16))], False)],
+          generic=("GUE", "<T: %s, const N: usize>" % GB, "%s, %d" % (tt.rust, n_), gm))
     us_pad2 = D("USPad2", "struct", False, fields=[("a", U8), ("b", U64), ("c", U16), ("s", str_u8)], default=True)
 
     # ---- unsized enums
@@ -645,7 +674,12 @@ num-traits = { version = "0.2", default-features = false }
     src.append("#![allow(dead_code, unused, non_snake_case, non_camel_case_types, non_upper_case_globals, clippy::all)]\n")
     src.append("use flatty::traits::*;\nuse flatty::Emplacer;\n\nfn r<T>(_: T) {}\n\n")
     src.append(U24_PRELUDE)
+    emitted = set()
     for d in defs:
+        if d.generic:
+            if d.generic[0] in emitted:
+                continue
+            emitted.add(d.generic[0])
         src.append(d.rust())
         src.append("\n")
     types = {}  # ident -> T
@@ -669,7 +703,7 @@ num-traits = { version = "0.2", default-features = false }
             if not t.sized:
                 src.append("pub fn __root_assign__%s__%d() { r(<%s as FlatUnsized>::assign_in_place::<%s>); }\n" % (nm, i, X, e))
         if t.defn is not None and t.defn.kind == "enum" and not t.defn.sized:
-            src.append("pub fn __root_access__%s() { r(%s::as_ref); r(%s::as_mut); r(%s::tag); }\n" % (nm, X, X, X))
+            src.append("pub fn __root_access__%s() { r(<%s>::as_ref); r(<%s>::as_mut); r(<%s>::tag); }\n" % (nm, X, X, X))
         if t.kind == "flex":
             F = X
             src.append("pub fn __root_flexapi__%s(v: &mut %s) { r(<%s>::len); r(<%s>::is_empty); r(<%s>::pop); r(<%s>::truncate); "
